@@ -2,7 +2,7 @@
    Only theorem statements closed by `exact`, each followed by Print Assumptions.
    T is any ordered commutative semiring (Z, Q, R); q is the list of squared singular values. *)
 From Coq Require Import List Arith ZArith.
-From TT Require Import OrdRing RankChop RankChopP.
+From TT Require Import RingSig SumN Mat OrdRing RankChop RankChopP FrobP Sweep SweepP.
 Import ListNotations.
 
 Section C01.
@@ -46,6 +46,40 @@ Theorem C01_pinned_tie_refuted :
     oleb (discarded q (rank_chop_pinned q true thr2)) thr2 = false.
 Proof. exact rank_chop_pinned_tail_refuted. Qed.
 
+
+(* ---- the sweep at matrix level, in exact arithmetic (commutative ring with involution: real and complex data) ---- *)
+Section C01_sweep.
+Context {R : Type} {RO : RingOps R} {RL : RingLaws R}.
+
+(* one truncation step: for U with orthonormal columns, B = U^H C, and ANY later approximation Bh of B:
+   || C - U Bh ||^2 = || C - U B ||^2 + || B - Bh ||^2   (Pythagoras; nothing is lost or counted twice) *)
+Theorem C01_stage_error m r n (U C Bh : mat R) : orth m r U ->
+  let B := mmul m (adj U) C in
+  frob2 m n (msub C (mmul r U Bh)) = radd (frob2 m n (msub C (mmul r U B))) (frob2 r n (msub B Bh)).
+Proof. exact (stage_error m r n U C Bh). Qed.
+
+(* the whole sweep, any number of bonds and any mode sizes: the squared error of the reconstruction is EXACTLY the sum of the
+   energies discarded at the bonds *)
+Theorem C01_sweep_error_eq (ss : list (stage R)) C : stages_ok ss -> orth_stages ss ->
+  match ss with
+  | [] => True
+  | s :: _ => frob2 (sm s) (sn s * sq s) (msub C (approx ss C)) = disc_total ss C
+  end.
+Proof. exact (sweep_error_eq ss C). Qed.
+
+(* THE ERROR BOUND: exact truncated SVDs at every bond (spectrum_link), ranks chosen by rank_chop with the threshold
+   eps/sqrt(dm1)*||remainder|| (ties included, no rmax binding):  dm1 * ||C - reconstruction||^2 <= #bonds * eps^2 * ||C||^2,
+   i.e. for #bonds = dm1 = d-1 the relative error is at most eps - for every order, all mode sizes (1 included), every spectrum *)
+Theorem C01_tt_svd_error_bound (leb : R -> R -> bool) {OL : @OrdLaws R (OO_of_ring leb)}
+  dm1 pos eps2 (ss : list (stage R)) (qs : list (list R)) (C : mat R) s0 st :
+  ss = s0 :: st -> stages_ok ss -> orth_stages ss -> spectrum_link leb ss qs C ->
+  Forall (fun q => q <> [] /\ Forall (@ole R (OO_of_ring leb) (@oz R (OO_of_ring leb))) q) qs -> @ole R (OO_of_ring leb) (@oz R (OO_of_ring leb)) eps2 ->
+  unbounded_ranks (OO := OO_of_ring leb) dm1 pos eps2 qs (map (@sr R) ss) ->
+  @ole R (OO_of_ring leb) (rmul (@ofnat R (OO_of_ring leb) dm1) (frob2 (sm s0) (sn s0 * sq s0) (msub C (approx ss C))))
+      (rmul (@ofnat R (OO_of_ring leb) (length ss)) (rmul eps2 (frob2 (sm s0) (sn s0 * sq s0) C))).
+Proof. exact (tt_svd_error_bound leb dm1 pos eps2 ss qs C s0 st). Qed.
+End C01_sweep.
+
 Print Assumptions C01_rank_chop_range.
 Print Assumptions C01_rank_chop_tail.
 Print Assumptions C01_rank_chop_minimal.
@@ -53,3 +87,6 @@ Print Assumptions C01_rank_chop_zero.
 Print Assumptions C01_bond_allowance.
 Print Assumptions C01_sweep_budget.
 Print Assumptions C01_pinned_tie_refuted.
+Print Assumptions C01_stage_error.
+Print Assumptions C01_sweep_error_eq.
+Print Assumptions C01_tt_svd_error_bound.
